@@ -367,10 +367,10 @@ def explore(res, scen_factory, judge, tag, mode, budget, seed, kind, p_switch=0.
             res.sample({"scenario": tag, "decisions": list(S.decisions)[:60], "outcome": outcome}, cap=3)
 
     n = 0
-    if mode == "dfs":
+    if mode in ("dfs", "dfs2"):
         prefix = []
         while prefix is not None and n < budget:
-            st = sched.DFSStrategy(prefix)
+            st = sched.DFSStrategy(prefix, max_preempt=2 if mode == "dfs2" else None)
             S, out = run_with(st)
             account(S, out)
             n += 1
@@ -383,6 +383,20 @@ def explore(res, scen_factory, judge, tag, mode, budget, seed, kind, p_switch=0.
             S, out = run_with(st)
             account(S, out)
             n += 1
+    elif mode == "sweep2":
+        # pairs of forced preemptions at random places (any actor, any armed scheduling point)
+        S0, out0 = run_with(sched.NonPreemptive())
+        account(S0, out0)
+        pts = [(a.name, k) for a in S0.actors if a.name != "main" for k in range(1, a.points + 1)]
+        rr = random.Random(seed)
+        for i in range(budget):
+            if len(pts) < 2:
+                break
+            st = sched.Preemptions(rr.sample(pts, 2 if i % 3 else 3))
+            S, out = run_with(st)
+            account(S, out)
+            n += 1
+        res.count("sweep2_runs", n)
     else:  # one-preemption sweep over every scheduling point of every actor
         S0, out0 = run_with(sched.NonPreemptive())
         account(S0, out0)
@@ -419,6 +433,8 @@ def run(res, tier, seed, shard, nshards):
         jobs.append(("S", nt, nf, 3, "random", 300 if quick else 6000, False))
         jobs.append(("S", nt, nf, 5, "random-line", 100 if quick else 2500, False))
     jobs.append(("S", 2, 1, 3, "sweep-line", 400 if quick else 100000, False))
+    jobs.append(("S", 2, 1, 2, "sweep2-line", 300 if quick else 20000, False))
+    jobs.append(("S", 3, 2, 3, "sweep2-line", 300 if quick else 20000, True))
     jobs.append(("S", 2, 2, 4, "sweep-line", 300 if quick else 100000, True))
     jobs.append(("S", 2, 2, 3, "random", 300 if quick else 5000, True))
     # receivers
@@ -430,6 +446,8 @@ def run(res, tier, seed, shard, nshards):
     jobs.append(("RF", 2, "random", 250 if quick else 5000))
     jobs.append(("RF", 3, "random-line", 100 if quick else 2500))
     jobs.append(("RF", 2, "dfs", 600 if quick else 20000))
+    jobs.append(("R", 3, "sweep2-line", 300 if quick else 20000))
+    jobs.append(("RF", 2, "sweep2-line", 300 if quick else 20000))
     for ji, job in enumerate(jobs):
         if ji % nshards != shard:
             continue
